@@ -255,6 +255,8 @@ def roundtrip_cases():
                 shapes["PointUndirectedGraph_%dpts_%dedges" % (npts, ne)] = lambda Q=Q, ea=ea: ms.PointUndirectedGraph.init_from_edges(Q, ea)
         for n, f in shapes.items():
             out.append(("ljson %dD %s" % (d, n), "ljson", "rt.ljson", f))
+    for fname in ("e.ljson", "e.v2.pts", "e.png", "e.pkl", "e.pkl.gz"):
+        out.append(("existing empty file " + fname, "refuse_empty", fname, None))
     for fname in ("clip.mp4", "clip.v2.final.mp4", "anim.gif", "clip.avi"):
         out.append(("refused video export " + fname, "refuse_video", fname, None))
     # points left of / above the origin (annotations may lie outside the image): the sign survives
@@ -336,6 +338,40 @@ def _run_refusal(label, fname):
         shutil.rmtree(root, ignore_errors=True)
 
 
+def _run_refuse_empty(label, fname):
+    """an existing file of zero bytes (a handle just opened, the stub of a failed export) is an existing file: refused unless
+    overwriting is asked for, and still empty afterwards"""
+    import menpo.io as mio
+    import menpo.shape as ms
+    from menpo.image import Image
+    from menpo.io.exceptions import OverwriteError
+
+    root = tempfile.mkdtemp(prefix="menpo-re-")
+    try:
+        ext = fname.rsplit(".", 1)[1]
+        for spell in ("Path", "str"):
+            p = Path(root) / fname
+            p.write_bytes(b"")
+            arg = p if spell == "Path" else str(p)
+            try:
+                if ext in ("ljson", "pts"):
+                    mio.export_landmark_file(ms.PointCloud(np.array([[1.0, 2.0], [3.0, 4.0]])), arg)
+                elif ext in ("pkl", "gz"):
+                    mio.export_pickle({"a": 1}, arg)
+                else:
+                    mio.export_image(Image(np.zeros((1, 4, 4), dtype=np.uint8)), arg)
+                return label + ": exporting onto an existing empty file (%s) without overwrite=True was not refused" % spell
+            except OverwriteError:
+                pass
+            except Exception as e:
+                return label + ": exporting onto an existing empty file (%s) raised %s instead of OverwriteError" % (spell, type(e).__name__)
+            if not p.exists() or p.read_bytes() != b"":
+                return label + ": the refused export changed the existing empty file"
+        return None
+    finally:
+        shutil.rmtree(root, ignore_errors=True)
+
+
 def run_roundtrip(case):
     import menpo.io as mio
     from menpo.image import Image
@@ -343,6 +379,8 @@ def run_roundtrip(case):
     label, kind, fname, factory = case
     if kind == "refuse_video":
         return _run_refusal(label, fname)
+    if kind == "refuse_empty":
+        return _run_refuse_empty(label, fname)
     root = tempfile.mkdtemp(prefix="menpo-rt-")
     try:
         obj = factory()
